@@ -7,6 +7,24 @@ CHECKS = {
     "C01": ("exploration", "property-based testing (Hypothesis): render/parse round-trip vs. the rendered datetime; thorough tier walks every calendar day 0001-9999",
             "Generated round-trip search: boundary-biased datetimes x 17 harness-written renderings x language/PREFER_* choices, and epoch timestamps x suffix x sign x zones against an independent pytz computation. Thorough enumerates all 3.65 M calendar days once. Search, not proof: absence of a counterexample in the explored set.",
             "Trusts pytz for zone arithmetic and Python's datetime; process TZ=UTC.", "DESIGN.md §4 C01"),
+    "C04": ("exploration", "property-based testing (Hypothesis) against an independent calendar-arithmetic oracle; thorough adds an exhaustive units x n x direction x base grid",
+            "Generated phrases (1-3 units, counts 0..5000, decimals, fixed words, clock times, RETURN_TIME_AS_PERIOD) over boundary-biased bases given as RELATIVE_BASE or frozen clock, compared with integer month arithmetic + exact timedelta written in the harness (no relativedelta); implicit-now stage against pytz for TIMEZONE/TO_TIMEZONE pairs.",
+            "Both application orders accepted when month clamping makes them differ; comma decimals only in single-unit phrases; TZ=UTC.", "DESIGN.md §4 C04"),
+    "C06": ("exploration", "exhaustive table walk + Hypothesis sampling, differential against the English canonical expression",
+            "Every fixed relative phrase and every counted pattern (instantiated with the listed counts and decimals) of all 504 locale codes, NORMALIZE on/off, is parsed with its language selected and compared (date and period) with the English parse of the canonical key under the same frozen reference time. 29 (language, key, phrase) failures of the pinned tree are listed findings.",
+            "The key in the data is the canon; English path correctness is C04's subject.", "DESIGN.md §4 C06"),
+    "C07": ("exploration", "property-based testing (Hypothesis) + walk over all locales: constructed reading of rendered numeric dates",
+            "Dates rendered in all 6 orders x 4 separators x year classes x optional time, parsed with explicit DATE_ORDER (must be read as written) and with each locale's own order (harness-side overlay as oracle), PREFER_LOCALE_DATE_ORDER on/off; thorough adds an exhaustive 6x4x40 years x all (m,d) grid.",
+            "Locale order = 'date_order' of the data module after overlay; one known finding (-YYYY read as UTC offset).", "DESIGN.md §4 C07"),
+    "C08": ("exploration", "property-based testing (Hypothesis) against an independent completion rule; thorough adds the exhaustive 9999x12 last-day grid",
+            "Month-year / year-only / full-date strings (absolute parser, all 9 preference pairs, optional clock time) and custom-format forms under a frozen clock; expected value from calendar.monthrange and the reference date; period by finest part present.",
+            "Frozen clock via module-level datetime replacement; TZ=UTC.", "DESIGN.md §4 C08"),
+    "C09": ("exploration", "property-based testing (Hypothesis): exact nearest-occurrence oracle for weekday/time-only, validity predicates for month/day-month/two-digit-year; thorough adds every day 1970-2067 x 7 weekdays x 3 preferences and all 1440 HH:MM",
+            "Reference datetimes over 1970-2067 with boundaries over-weighted x 3 preferences x 5 forms (+TIMEZONE for time-only). Three recorded findings (month re-imposed after a cross-month shift for weekday-only and time-only; UTC date used with a TIMEZONE).",
+            "Defaults for PREFER_DAY_OF_MONTH/MONTH_OF_YEAR; TZ=UTC.", "DESIGN.md §4 C09"),
+    "C11": ("exploration", "exhaustive walk of the source timezone table + Hypothesis sampling of bodies; offset/wall-clock/pickle-copy round-trip oracle",
+            "All supported offsets x 8-12 spellings and all ~390 abbreviations (upper/lower) x bodies x positions x {en, autodetect}: aware result with exactly the listed offset and the written wall clock, surviving pickle/copy/deepcopy; naive control group. 4 non-ASCII abbreviations are listed findings.",
+            "Expected offsets read from dateparser/timezones.py source table; conflicting names (LMT) excluded.", "DESIGN.md §4 C11"),
     "C05": ("exploration", "exhaustive table walk + property-based sampling (Hypothesis): every listed month/weekday name parsed and compared with the meaning the data declares",
             "Complete walk over all 504 locale codes x NORMALIZE on/off x SKIP_TOKENS default/[] x every single-meaning month/weekday spelling (exhaustive in the thorough tier, all languages + 20% of regional locales in quick), plus Hypothesis sampling of days/years/reference dates. 36 (language, name) pairs that fail on the pinned tree are listed as known findings; any other failing name is a violation.",
             "The data module's key is the name's meaning; harness-side overlay of locale_specific; frozen clock via module-level datetime replacement.", "DESIGN.md §4 C05"),
